@@ -6,7 +6,7 @@
 // (oq_insert: 469 s) — see DESIGN §11.
 pub mod btree_map {
     use std::cmp::Ordering;
-    pub const MODEL_MAP_CAP: usize = 4;
+    pub const MODEL_MAP_CAP: usize = /*CAP*/ 4;
 
     #[derive(Debug)]
     pub struct BTreeMap<K, V> {
